@@ -262,3 +262,42 @@ mod verif_response {
     verif_harness!(c03_t_close_get_205, 40, { bodiless(Method::GET, b"HTTP/1.1 205 RC\r\n\r\n", 2, false) });
     verif_harness!(c03_t_close_post_404, 40, { bodiless(Method::POST, b"HTTP/1.1 404 NF\r\n\r\n", 3, false) });
 }
+
+// ---------------------------------------------------------------------------------------------
+// Model of parse_response for the redirect-loop harnesses (C09 / C10 / C08 per hop): the response of
+// hop k has the status and Location presence scripted by the harness; its url is the hop URL it was
+// given (that the real parse_response stores the hop URL is decided in c09_*_parse_response_url).
+pub(crate) mod verif_hops {
+    use super::*;
+    pub static mut HOP: usize = 0;
+    pub static mut HOP_STATUS: [u16; 6] = [200; 6];
+    pub static mut HOP_HAS_LOCATION: [bool; 6] = [false; 6];
+    pub static mut PARSE_CALLS: usize = 0;
+
+    pub fn parse_response_model<B>(reader: BaseStream, request: &PreparedRequest<B>, url: &Url) -> Result<Response> {
+        let k = unsafe { HOP };
+        unsafe {
+            PARSE_CALLS += 1;
+            HOP = k + 1;
+        }
+        assert!(k < 6, "verif: more hops than scripted");
+        let status = StatusCode::from_u16(unsafe { HOP_STATUS[k] }).unwrap();
+        let mut headers = HeaderMap::new();
+        if unsafe { HOP_HAS_LOCATION[k] } {
+            headers.insert(http::header::LOCATION, HeaderValue::from_static("n"));
+        }
+        let body = BodyReader::empty(BufReader::with_capacity(8, reader));
+        let cr = CompressedReader::new(&headers, request, body)?;
+        let rr = ResponseReader::new(&headers, request, cr);
+        Ok(Response {
+            url: url.clone(),
+            status,
+            headers,
+            reader: rr,
+        })
+    }
+
+    pub fn response_url(r: &Response) -> &Url {
+        &r.url
+    }
+}
